@@ -32,9 +32,13 @@ MANIFEST = dict(
          "stream is the concatenation of the per-operation contracts block by block up to collapse (COMPLETENESS, "
          "C03_contract_sequential) and sound_along holds: every event queued by an AEmit is justified by the operations "
          "executed before it (SOUNDNESS, C03_sound_pipeline_sequential / C03_blocks_sound; every event of a contract is "
-         "justified by its operation: C03_contract_justified; drun-level form C03_sound_sequential); STATED ONLY "
-         "(C03_sound_full_current): soundness over all interleavings - bursts of operations before a read, partial reads, the "
-         "pairing delay not elapsed between read and emit. "
+         "justified by its operation: C03_contract_justified; drun-level form C03_sound_sequential); the same with PARTIAL "
+         "READS - each block's records split arbitrarily between several ARead steps, also between the two halves of a rename "
+         "(C03_contract_cuts, C03_sound_pipeline_cuts, via the cuts theorems of C01/C02; no operation and no tick between the "
+         "reads of a block), and with LOOSE TIMING after the reads - the pairing delay in several parts, queue_events before the "
+         "delay of a lone IN_MOVED_FROM has elapsed, items delivered early (C03_contract_loose, C03_blocks_sound_loose); STATED "
+         "ONLY (C03_sound_full_current): soundness over all interleavings - operations before the previous block is drained "
+         "(bursts), ticks or queue_events between the reads of a block. "
          "Pipeline model in lock-step against the real observer on the real kernel (see C01); completeness: in "
          "one-at-a-time histories the events delivered for each operation must equal the per-operation contract written "
          "from the property text; soundness: in arbitrary (also unpaced) histories every delivered event must be explained "
